@@ -28,6 +28,7 @@ type c03World struct {
 	nontrivial      bool
 	secondDenomPaid bool
 	rewardsPaid     int
+	formsOpened     int
 }
 
 func must2(r chain.Result) {
@@ -269,7 +270,7 @@ func (w *c03World) runBlocks(blocks int, dt time.Duration) (string, string) {
 
 func TestC03(t *testing.T) {
 	rec := ev.For("C03")
-	rec.Describe("fork-mode histories: 1-4 real files (1..8192 bytes at chunk size 1024, MaxProofs 2-5), 2-6 provers (some without a provider record) joining in generated order with real Merkle proofs, a generated subset of (prover,file) pairs at generated list positions stops proving, gauges of 1..1e15 ujkl (a third of them with a second deposit of 1..1e12 uatom, small ones weighted up so that single shares round to zero) funded by the calls BuyStorage makes, reward blocks after youth with hour-scale block times, followed by further reward blocks on the state the first left behind. Oracle at each reward block from before/after snapshots: prover lists == before minus missed (sets, no duplicates); burn counters rise by exactly the number of missed files; per denomination each counted prover's payout within [floor(R*c/N_all)-1, floor(R*c/N_counted)+1]; pairwise proportionality; uncounted accounts unchanged; sum paid <= released. Non-trivial = >=2 counted provers, >=1 missed prover not in the last list position, R>0; distinct = distinct traces.",
+	rec.Describe("fork-mode histories: 1-4 real files (1..8192 bytes at chunk size 1024, MaxProofs 2-5), 2-6 provers (some without a provider record) joining in generated order with real Merkle proofs, a generated subset of (prover,file) pairs at generated list positions stops proving, in a third of the worlds provers open attestation forms (form size set to 2 by governance) that nobody completes, gauges of 1..1e15 ujkl (a third of them with a second deposit of 1..1e12 uatom, small ones weighted up so that single shares round to zero) funded by the calls BuyStorage makes, reward blocks after youth with hour-scale block times, followed by further reward blocks on the state the first left behind. Oracle at each reward block from before/after snapshots: prover lists == before minus missed (sets, no duplicates); burn counters rise by exactly the number of missed files; per denomination each counted prover's payout within [floor(R*c/N_all)-1, floor(R*c/N_counted)+1]; pairwise proportionality; uncounted accounts unchanged; sum paid <= released. Non-trivial = >=2 counted provers, >=1 missed prover not in the last list position, R>0; distinct = distinct traces.",
 		"'share' is accepted over either denominator (all listed at block start, as the code does, or counted only)",
 		"prover-less files being dropped is not asserted here (C07/C17 cover it)")
 	c := chain.New(chain.GenesisOpts{NumAccounts: 1, Balance: sdk.NewCoins(sdk.NewInt64Coin("ujkl", 3_000_000_000_000_000), sdk.NewInt64Coin("uatom", 3_000_000_000_000_000)),
@@ -299,6 +300,12 @@ func TestC03(t *testing.T) {
 		nProv := rapid.IntRange(2, 6).Draw(rt, "provers")
 		unreg := rapid.IntRange(0, 1).Draw(rt, "unregistered")
 		w := newC03WorldFunded(c, W, C, nProv, unreg)
+		// in a third of the worlds governance has set small attestation forms (2 judges, both needed), so that provers can
+		// open forms among the few providers here; nobody ever completes one, so a form changes nobody's obligations
+		openForms := nProv-unreg >= 3 && rapid.IntRange(0, 2).Draw(rt, "smallAttestationForms") == 0
+		if openForms {
+			w.setParams(func(p *storagetypes.Params) { p.AttestFormSize, p.AttestMinToPass = 2, 2 })
+		}
 		nFiles := rapid.IntRange(1, 4).Draw(rt, "files")
 		for i := 0; i < nFiles; i++ {
 			size := rapid.OneOf(rapid.Int64Range(1, 8192), rapid.SampledFrom([]int64{1, 1024, 2048, 8192})).Draw(rt, "size")
@@ -328,6 +335,24 @@ func TestC03(t *testing.T) {
 			if rapid.IntRange(0, 9).Draw(rt, "stop") < 3 {
 				w.stopped[k] = true
 				w.logf("%s stops proving %s", short(w.pairs[k].Prover), w.pairs[k].File.id())
+			}
+		}
+		if openForms {
+			for _, k := range w.sortedPairKeys() {
+				pr := w.pairs[k]
+				if !w.registered[pr.Prover] || rapid.IntRange(0, 2).Draw(rt, "opensForm") != 0 {
+					continue
+				}
+				res := w.f.Exec(storagetypes.NewMsgRequestAttestationForm(pr.Prover, pr.File.Merkle, pr.File.Owner, pr.File.Start))
+				w.logf("%s requests an attestation form for %s -> %s", short(pr.Prover), pr.File.id(), res)
+				if form, found := w.c.App.StorageKeeper.GetAttestationForm(w.f.Ctx, pr.Prover, pr.File.Merkle, pr.File.Owner, pr.File.Start); found && res.OK() {
+					w.formsOpened++
+					if rapid.Bool().Draw(rt, "oneJudgeSigns") { // one signature of the two needed: the form stays open
+						j := form.Attestations[rapid.IntRange(0, len(form.Attestations)-1).Draw(rt, "judge")].Provider
+						r2 := w.f.Exec(storagetypes.NewMsgAttest(j, pr.Prover, pr.File.Merkle, pr.File.Owner, pr.File.Start))
+						w.logf("%s signs it -> %s", short(j), r2)
+					}
+				}
 			}
 		}
 		nG := rapid.IntRange(1, 3).Draw(rt, "gauges")
@@ -377,6 +402,9 @@ func TestC03(t *testing.T) {
 				}
 				rec.Count("histories-with-a-pay-once-file-past-its-expiry")
 			}
+		}
+		if w.formsOpened > 0 {
+			rec.Count("histories-with-open-attestation-forms")
 		}
 		if w.rewardsPaid > 0 {
 			rec.Count("histories-with-paying-reward-block")
